@@ -1,1 +1,35 @@
-fn main() { println!("hello"); }
+//! ink_harness: runs the real inkayaku code on line-oriented cases (see /verif/CONVENTIONS.md).
+//!   ink_harness dump                 constant tables of the current tree (through the cfg(inkayaku_verif) hooks)
+//!   ink_harness run <family>         stdin: one case per line -> stdout: one observation per line
+//!   ink_harness gen <kind> <seed> <n>  position generators (FEN lines)
+use std::io::{BufRead, Write};
+
+mod util;
+mod dump;
+mod fam_board;
+mod fam_table;
+mod fam_history;
+mod gen;
+include!("families.rs");
+
+fn main() {
+    std::panic::set_hook(Box::new(|_| {}));
+    let args: Vec<String> = std::env::args().collect();
+    match args.get(1).map(|s| s.as_str()) {
+        Some("dump") => dump::dump(),
+        Some("run") => {
+            let fam = args.get(2).expect("family");
+            let f = family(fam).unwrap_or_else(|| { eprintln!("unknown family {}", fam); std::process::exit(2) });
+            let stdin = std::io::stdin();
+            let stdout = std::io::stdout();
+            let mut out = std::io::BufWriter::new(stdout.lock());
+            for line in stdin.lock().lines() {
+                let line = line.expect("utf8 line");
+                let obs = f(&line);
+                writeln!(out, "{}", obs).unwrap();
+            }
+        }
+        Some("gen") => gen::gen(&args[2..]),
+        _ => { eprintln!("usage: ink_harness dump | run <family> | gen <kind> <seed> <n>"); std::process::exit(2) }
+    }
+}
